@@ -6,6 +6,7 @@ use crate::report::Tier;
 pub mod c11;
 pub mod c12;
 pub mod c13;
+pub mod c14;
 
 fn one(_: Tier) -> usize { 1 }
 
@@ -14,6 +15,7 @@ pub fn all() -> Vec<CheckDef> {
         CheckDef { id: "C11", shards: one, run: c11::run, replay: Some(c11::replay) },
         CheckDef { id: "C12", shards: one, run: c12::run, replay: Some(c12::replay) },
         CheckDef { id: "C13", shards: one, run: c13::run, replay: Some(c13::replay) },
+        CheckDef { id: "C14", shards: one, run: c14::run, replay: Some(c14::replay) },
     ]
 }
 
